@@ -133,6 +133,7 @@ func init() {
 				return
 			}
 			key := fmt.Sprintf("%s|%v|%s", e.Name, e.Defs, e.Shape)
+			x.Eval(1) // two call sites per case (RunAll counted the case once)
 			if e.NT {
 				x.Nontrivial(key + "|inside")
 				x.Nontrivial(key + "|outside")
